@@ -80,6 +80,8 @@ def classify(case, detail):
             return "spread-directive-relocated"
         if f["family"] == "variable-type" and re.search(r'of type "([^"]+)" used in position expecting type "\1!"', msg):
             return "nested-variable-location-default-ignored"
+        if f["family"] == "null-value" and re.search(r'Expected value of type "[^"]+!", found null', msg) and " = null" in unq(case):
+            return "nested-variable-location-default-ignored"
         if f["family"] == "fragment-cycle":
             return "union-fragment-in-union-rejected"
     return None
